@@ -282,8 +282,9 @@ def r18_2(ctx) -> None:
     guard = False
     for t in cfg.nodes:
         if t.kind == "test" and isinstance(t.ast, ast.Compare) and norm(t.ast.left) == f"{kp} % 8" \
-                and const_value(t.ast.comparators[0]) == 0 and isinstance(t.ast.ops[0], ast.NotEq):
-            if not can_reach_exit(cfg, succ_by_label(cfg, t, "true")) and all(cfg.must_pass(cfg.entry, cfg.node_of(s.node), [t]) for s in tb):
+                and const_value(t.ast.comparators[0]) == 0 and isinstance(t.ast.ops[0], (ast.NotEq, ast.Eq)):
+            bad_lab = "true" if isinstance(t.ast.ops[0], ast.NotEq) else "false"
+            if not can_reach_exit(cfg, succ_by_label(cfg, t, bad_lab)) and all(cfg.must_pass(cfg.entry, cfg.node_of(s.node), [t]) for s in tb):
                 guard = True
     ctx.check(okk and guard, "R18.2", oct_, oct_.node, "OctKey.generate_key size", "generated oct keys do not have exactly key_size bits (token_bytes(key_size // 8) behind a % 8 guard)",
               "token_bytes(key_size // 8), raise unless key_size % 8 == 0", construct="oct key size")
